@@ -42,6 +42,9 @@ AnalysisOK ==
     Picked =>
       IF ImplARaises(cfg.mode, cfg.N, cfg.L) THEN ARaiseAllowed(cfg)
       ELSE Same3(ImplA(cfg.mode, cfg.N, cfg.L), RefA(cfg.mode, cfg.N, cfg.L)) \/ KnownDevA(cfg)
+\* the plain obligation without any documented deviation (violated by the pre-fix model PerFix = FALSE: selftest)
+AnalysisPlain ==
+    (Picked /\ ~ImplARaises(cfg.mode, cfg.N, cfg.L)) => Same3(ImplA(cfg.mode, cfg.N, cfg.L), RefA(cfg.mode, cfg.N, cfg.L))
 \* the deviation region is exact: inside it the model of the code really differs
 AnalysisDevExact ==
     (Picked /\ KnownDevA(cfg)) =>
